@@ -2,7 +2,8 @@
 import os, json
 from dataclasses import dataclass, field
 from .common import *
-from . import stream_iter, stream_segment, stream_count, oracle
+from . import stream_iter, stream_segment, stream_count, oracle, streams
+from .gstream import STREAMS
 
 TRUSTED_BASE = [
     "Lean 4.33.0 kernel; Mathlib v4.33.0 (imported only by PsSpec/PsProofs/PsProps)",
@@ -245,6 +246,8 @@ def combine_witness(*fs):
 
 def replay(ctx, data):
     """re-run a replay file; returns {'fails': bool, ...}"""
+    if data.get("stream") in STREAMS and data.get("op"):
+        return STREAMS[data["stream"]].replay(ctx, data)
     if data.get("stream") == "count" and data.get("op"):
         res = stream_count.run_stream(ctx.harness, ctx.model, [("replay", data["op"])], ctx.workdir, "replay")
         wrong, diffs, _ = stream_count.analyse([("replay", data["op"])], res)
@@ -302,6 +305,45 @@ REGISTRY = {
         tie=iter_tie, witness=iter_witness, assumptions=ITER_ASSUME,
         undischarged=["IGen ~ PrimeGenerator (sieve chain, DESIGN section 9 Tier B)"],
         explanation="simulation between the iterator model and the abstract cursor for every history"),
+    "C04": Prop(
+        targets=["PsProps.C04"],
+        theorems=[("PsProps.C04", "Ps.Props.C04_count_single"), ("PsProps.C04", "Ps.Props.C04_count_parallel"),
+                  ("PsProps.C04", "Ps.Props.C04_empty"), ("PsProps.C04", "Ps.Props.C04_additive"),
+                  ("PsProps.C04", "Ps.Props.C04_agrees_with_enumeration")],
+        tie=combine(("count", count_tie), ("segment", segment_tie)),
+        witness=combine_witness(count_witness, segment_witness), assumptions=COUNT_ASSUME,
+        undischarged=["ideal sieve ~ Erat cross-off (sieve chain, DESIGN section 9 Tier B)"],
+        explanation="counter 0 of PrimeSieve::sieve / ParallelSieve::sieve over the ideal sieve = number of primes in "
+                    "[start, stop], for every start, stop, thread count and piece length"),
+    "C05": Prop(
+        targets=["PsProps.C05"],
+        theorems=[("PsProps.C05", "Ps.Props.C05_tuplets_single"), ("PsProps.C05", "Ps.Props.C05_tuplets_parallel"),
+                  ("PsProps.C05", "Ps.Props.C05_masks_exhaustive"), ("PsProps.C05", "Ps.Props.C05_small_rows")],
+        tie=combine(("count", count_tie)), witness=combine_witness(count_witness), assumptions=COUNT_ASSUME,
+        undischarged=["ideal sieve ~ Erat cross-off (sieve chain, DESIGN section 9 Tier B)"],
+        explanation="counters 1..5 = number of constellations of each kind inside [start, stop]; the mask table is "
+                    "checked against the pattern definition for all 256 byte values by the kernel"),
+    "C15": Prop(
+        targets=["PsProps.C15"],
+        theorems=[("PsProps.C15", "Ps.Props.C15_print_primes"), ("PsProps.C15", "Ps.Props.C15_lines_eq_count"),
+                  ("PsProps.C15", "Ps.Props.C15_print_tuplets_from7"), ("PsProps.C15", "Ps.Props.C15_tuplet_lines_eq_count"),
+                  ("PsProps.C15", "Ps.Props.C15_small_strings")],
+        tie=combine(("print", streams.PRINT.tie)), witness=combine_witness(streams.PRINT.witness),
+        assumptions=COUNT_ASSUME + ["iostream's decimal rendering of uint64_t equals Lean's Nat.repr (toString)"],
+        undischarged=["ideal sieve ~ Erat cross-off (sieve chain)", "print_twins..sextuplets for start < 7: only the "
+                      "table strings are proved (C15_small_strings); the full statement is tied by the print stream"],
+        explanation="the lines printed by PrimeSieve::sieve(PRINT_*) over the ideal sieve are the renderings of the "
+                    "primes / constellations of [start, stop], ascending"),
+    "C06": Prop(
+        targets=["PsProps.C06"],
+        theorems=[("PsProps.C06", "Ps.Props.C06_store_primes"), ("PsProps.C06", "Ps.Props.C06_no_truncation"),
+                  ("PsProps.C06", "Ps.Props.C06_next_block"), ("PsProps.C06", "Ps.Props.C06_storeMaxPrime")],
+        tie=combine(("store", streams.STORE.tie)), witness=combine_witness(streams.STORE.witness),
+        assumptions=ITER_ASSUME + ["std::vector::insert/push_back/reserve append and never touch existing elements"],
+        undischarged=["IGen ~ PrimeGenerator (sieve chain)", "store_n_primes: modelled (PsModel.Store.storeNPrimes) and "
+                      "tied by the store stream; its theorem is not proved yet"],
+        explanation="store_primes over the iterator model appends exactly primesIn start stop, or throws before storing "
+                    "anything when stop exceeds the element type; the block loop terminates"),
     "C09": Prop(
         targets=["PsProps.C09"],
         theorems=[("PsProps.C09", "Ps.Props.C09_piece_exact"), ("PsProps.C09", "Ps.Props.C09_tiling"),
